@@ -131,6 +131,11 @@ func (r *Runner) lightBigUndo(l *Line) *World {
 	for i, x := range blk.Rem {
 		rem[i] = uint32(x)
 	}
+	// the client also remembers the first 700 of the extra additions (they are gone again after the
+	// undo, so the expectation of the undo step is unchanged): hundreds of remembered additions in one block
+	for i := blk.K; i < blk.K+700; i++ {
+		rem = append(rem, uint32(i))
+	}
 	var ud utreexo.UpdateData
 	var err error
 	var newH []Hash
